@@ -6,7 +6,7 @@ From OG Require Import C04.Model C04.Proofs.
 Import ListNotations.
 
 Definition mut (a b c d : bool) : variant :=
-  {| v_flag_first := a; v_drop_first := b; v_gc_ignores_refs := c; v_no_snap_lock := d; v_stale_list := false |}.
+  {| v_flag_first := a; v_drop_first := b; v_gc_ignores_refs := c; v_no_snap_lock := d; v_stale_list := false; v_drop_blind := false; v_no_wait_snap := false |}.
 
 Definition sys1 : list actor := [fresh_writer [1]; fresh_reader 1; fresh_flusher 1; AP [Replace [0] []; Gc 0]].
 
@@ -52,6 +52,47 @@ Example correct_on_mutant_schedules :
           [[0;0;2;1;2;1;1;1;1]; [0;0;2;2;1;1;1;1;1]; [0;0;2;2;2;1;1;3;3;1;1;1]; [0;0;1;1;2;2;2;1;1;1]] = true.
 Proof. vm_compute. reflexivity. Qed.
 
+(* deleteUnorderedFiles deleting the out-of-order list object on the stale "empty" decision of its first critical
+   section (no re-check under m.mu): a flush that lists its out-of-order file between the two sections is orphaned.
+   W: 5 flush (ordered), 3 flush (out of order), 4; merge replaces and de-lists {3}; the flush of {4} is published;
+   the merge's second section deletes the list object; a query misses 4 *)
+Definition mutv (blind nowait : bool) : variant :=
+  {| v_flag_first := false; v_drop_first := false; v_gc_ignores_refs := false; v_no_snap_lock := false;
+     v_stale_list := false; v_drop_blind := blind; v_no_wait_snap := nowait |}.
+Definition sys2 : list actor := [fresh_writer [5;3;4]; fresh_flusher 3; AP [Merge]; fresh_reader 1].
+Definition sched_blind : list nat := [0;0; 1;1;1;  0;0; 1;1;1;  0;0;  2;2;  1;1;  2;  1;  3;3;3;3;3].
+
+Theorem map_delete_without_recheck_refuted :
+  exists st, reach (mutv true false) (init_state sys2) st /\ some_view_missing st = true.
+Proof.
+  destruct (run (mutv true false) (init_state sys2) sched_blind) as [st|] eqn:E; [|vm_compute in E; discriminate].
+  exists st. split; [eapply run_reach; exact E|]. vm_compute in E. inversion E; subst. vm_compute. reflexivity.
+Qed.
+
+(* a flush that does not wait for the snapshot already in flight overwrites the single snapshot slot: the first
+   snapshot's batches are in no container a query looks at.  W: 5; flusher A swaps; W: 3; flusher B swaps too *)
+Definition sys3 : list actor := [fresh_writer [5;3]; fresh_flusher 1; fresh_flusher 1; fresh_reader 1].
+Definition sched_nowait : list nat := [0;0; 1; 0;0; 2; 3;3;3;3;3].
+
+Theorem flush_without_waiting_refuted :
+  exists st, reach (mutv false true) (init_state sys3) st /\ some_view_missing st = true.
+Proof.
+  destruct (run (mutv false true) (init_state sys3) sched_nowait) as [st|] eqn:E; [|vm_compute in E; discriminate].
+  exists st. split; [eapply run_reach; exact E|]. vm_compute in E. inversion E; subst. vm_compute. reflexivity.
+Qed.
+
+(* on the correct machine the first schedule ends in a complete view and the second is not executable (the second
+   swap is not enabled while a snapshot is in flight) *)
+Example correct_on_new_mutant_schedules :
+  (match run correct (init_state sys2) sched_blind with
+   | Some st => negb (some_view_missing st) | None => false end) = true /\
+  run correct (init_state sys3) sched_nowait = None /\
+  run correct (init_state sys3) [0;0; 1; 0;0] <> None /\ exec correct
+    (match run correct (init_state sys3) [0;0; 1; 0;0] with Some st => st | None => init_state [] end) 2 = None.
+Proof. vm_compute. repeat split; discriminate. Qed.
+
+Print Assumptions map_delete_without_recheck_refuted.
+Print Assumptions flush_without_waiting_refuted.
 Print Assumptions flag_before_refs_refuted.
 Print Assumptions drop_before_publish_refuted.
 Print Assumptions removal_ignores_refs_refuted.
